@@ -1,0 +1,11 @@
+//go:build verif
+
+// Contracts for package types (consensus/types), checked by /verif/govc (comment-only; see /verif/DESIGN.md).
+package types
+
+// Read-only accessors of the per-height vote bookkeeping and the round state: they modify nothing that
+// the consensus state machine's contracts speak about (trusted frame contracts).
+//@ trusted func (hvs *HeightVoteSet) Prevotes(round uint32) (r *types.VoteSet)
+//@ trusted func (hvs *HeightVoteSet) Precommits(round uint32) (r *types.VoteSet)
+//@ trusted func (hvs *HeightVoteSet) POLInfo() (polRound uint32, polBlockID types.BlockID)
+//@ trusted func (rs *RoundState) RoundStateEvent() (r types.EventDataRoundState)
